@@ -3,9 +3,9 @@
    Model: HS/HSModel.v (gmtls client / server state machines, symbolic cryptography: HS/HSTerms.v).
    Scope: the GMSSL client with the two ECC suites (0xe013, 0xe053), verification on, full handshake (no cached
    session); servers in every mode with session tickets disabled.  Chain verification is the abstract predicate
-   "certificate id is in c_trusted / s_client_trusted" (what Verify returns at the configured time, name, roots). *)
+   "the certificate is in c_trusted / s_client_trusted" (what Verify returns at the configured time, name, roots). *)
 From Coq Require Import List NArith Arith Bool Lia.
-From GmsmVerif Require Import Lib.Outcome HS.HSTerms HS.HSModel HS.HSProofs HS.HSClientFlight HS.HSTlsClientFlight HS.HSServerFlight HS.HSAuth HS.HSAuth2 HS.HSNames.
+From GmsmVerif Require Import Lib.Outcome HS.HSTerms HS.HSModel HS.HSProofs HS.HSClientFlight HS.HSTlsClientFlight HS.HSServerFlight HS.HSAuth HS.HSAuth2 HS.HSNames HS.HSSystem HS.HSSessions.
 Import ListNotations.
 Local Open Scope N_scope.
 
@@ -43,7 +43,7 @@ Theorem C08_clientauth_policy_table : forall cfg ins st',
     (s_auth cfg = 0 -> ss_peer st' = [] /\ forall cs, ~ In (IHs (MCertificate cs)) (firstn 2 (strip ins))) /\
     (1 <= s_auth cfg -> nth_error (strip ins) 1 = Some (IHs (MCertificate certs))) /\
     (s_auth cfg = 2 \/ s_auth cfg = 4 -> certs <> []) /\
-    (3 <= s_auth cfg -> certs <> [] -> mem (cert_id (nth_cert 0 certs)) (s_client_trusted cfg) = true) /\
+    (3 <= s_auth cfg -> certs <> [] -> tmem (nth_cert 0 certs) (s_client_trusted cfg) = true) /\
     (ss_peer st' <> [] ->
        ss_peer st' = certs /\ In (IHs (MCertificateVerify alg sig)) (strip ins) /\
        verify (cert_pub (nth_cert 0 certs)) sig (THash (tlist tr_ckx)) = true /\
@@ -87,7 +87,7 @@ Print Assumptions C08_clientauth_policy_table.
 Theorem C08_authentication : forall AK own (K : term -> Prop) cfg ins st',
   c_gm cfg = true -> c_verify cfg = true -> ecc_only cfg -> c_session cfg = None ->
   (forall i, In i ins -> deliverable AK own K i) ->
-  (forall c, is_cert c = true -> mem (cert_id c) (c_trusted cfg) = true -> AK (cert_key c) = false) ->
+  (forall c, is_cert c = true -> tmem c (c_trusted cfg) = true -> AK (cert_key c) = false) ->
   own (c_pms cfg) = false ->
   (forall u, K u -> hidden AK (TPMS (c_pms cfg)) u) ->
   (forall u sr, K u -> hidden AK (client_master cfg sr) u) ->
@@ -191,14 +191,50 @@ Theorem C08_finished_needs_master : forall AK own (K : term -> Prop) fp ms label
 Proof. exact finished_needs_master. Qed.
 Print Assumptions C08_finished_needs_master.
 
+(* 8. Many concurrent sessions (model: HS/HSSystem.v).  Honest GMSSL clients (no cached session) and servers of any mode
+   (tickets off), any number, each with its own configuration and randomness; the attacker (AK, own) controls the network:
+   an endpoint receives only what the attacker delivers, in any order, to any session - in particular signatures, key
+   exchanges and Finished messages REPLAYED FROM OTHER SESSIONS - provided it can derive the cryptographic fields from
+   everything sent so far.  [protected cfg]: GMSSL, verification on, and the keys named in the certificates its Verify
+   accepts are not attacker keys.  In EVERY reachable state:
+   (a) the pre-master and master secrets of a protected client are not derivable, as long as its pre-master randomness is
+       not shared with an unprotected client; *)
+Theorem C08_sessions_secrecy : forall AK own s cfg ins sr,
+  reach AK own s -> In (PClient cfg ins) (parties s) ->
+  (forall cfg' ins', In (PClient cfg' ins') (parties s) -> c_pms cfg' = c_pms cfg -> protected AK cfg') ->
+  ~ derives AK own (knows (wire s)) (TPMS (c_pms cfg)) /\
+  ~ derives AK own (knows (wire s)) (client_master cfg sr).
+Proof. exact sessions_secrecy. Qed.
+Print Assumptions C08_sessions_secrecy.
+
+(* (b) AGREEMENT WITH NO PREMISE ABOUT THE NETWORK: a protected client (ECC suites) that has completed has a partner - an
+       honest server session that has completed with exactly the same transcript (every handshake message, in order) and
+       master secret.  Replaying a signature or key exchange from another session therefore makes the client abort, and
+       a client never completes with a view of the handshake that no server shares. *)
+Theorem C08_agreement_sessions : forall AK own s cfg ins st_c,
+  reach AK own s -> In (PClient cfg ins) (parties s) ->
+  protected AK cfg -> ecc_only cfg ->
+  (forall cfg' ins', In (PClient cfg' ins') (parties s) -> c_pms cfg' = c_pms cfg -> protected AK cfg') ->
+  client_run cfg ins = RComplete st_c ->
+  exists scfg ins_s st_s,
+    In (PServer scfg ins_s) (parties s) /\ server_run scfg ins_s = RComplete st_s /\
+    ss_tr st_s = cs_tr st_c /\ ss_master st_s = cs_master st_c.
+Proof. exact agreement_sessions. Qed.
+Print Assumptions C08_agreement_sessions.
+
+(* the faithful network is one of the attacker's behaviours: whatever is on the wire can be delivered *)
+Theorem C08_wire_messages_deliverable : forall AK own w m, In (enc_hmsg m) w -> can_deliver AK own w (IHs m).
+Proof. exact wire_message_deliverable. Qed.
+Print Assumptions C08_wire_messages_deliverable.
+
 (* ---- non-vacuity ----------------------------------------------------------------------------------------- *)
 Definition ex_sig := TCert 1 KIND_SM2 KU_SIGN 101.
 Definition ex_enc := TCert 2 KIND_SM2 KU_ENC 102.
 Definition ex_auth := TCert 3 KIND_SM2 KU_SIGN 103.
 Definition ex_client : cconfig :=
-  mkCC true 771 [57363; 57427] true [1; 2] (Some (ex_auth, 103)) false None 11 12 13 14.
+  mkCC true 771 [57363; 57427] true [ex_sig; ex_enc] (Some (ex_auth, 103)) false None 11 12 13 14.
 Definition ex_server (auth : N) : sconfig :=
-  mkSC GMOnly None false auth [3] [(ex_sig, 101); (ex_enc, 102)] None false 200 false 21 22 23.
+  mkSC GMOnly None false auth [ex_auth] [(ex_sig, 101); (ex_enc, 102)] None false 200 false 21 22 23.
 
 (* the honest run meets the hypotheses of 1, 2, 4 and their conclusions hold by computation: both complete, with equal
    transcripts and master secrets, for every ClientAuth policy *)
@@ -234,7 +270,7 @@ Example C08_attack_scripts_rejected :
   is_error (ex_attack [ex_sig; ex_enc] [IHs (MServerKeyExchange true TNil (TSig 101 (ex_payload (TRand 11) (TRand 21) ex_sig)))]) = true /\
   (* certificates swapped *)
   is_error (ex_attack [ex_enc; ex_sig] [IHs (MServerKeyExchange true TNil (TSig 101 (ex_payload (TRand 11) (TRand 21) ex_enc)))]) = true /\
-  (* untrusted certificate (id 9 is not in c_trusted) *)
+  (* untrusted certificate (not in c_trusted) *)
   is_error (ex_attack [TCert 9 KIND_SM2 KU_SIGN 109; ex_enc] [IHs (MServerKeyExchange true TNil (TSig 109 (ex_payload (TRand 11) (TRand 21) ex_enc)))]) = true /\
   (* RSA certificate *)
   is_error (ex_attack [TCert 1 KIND_RSA 3 101; ex_enc] [IHs (MServerKeyExchange true TNil (TSig 101 (ex_payload (TRand 11) (TRand 21) ex_enc)))]) = true /\
@@ -270,7 +306,7 @@ Proof. vm_compute. repeat split; reflexivity. Qed.
 (* TLS client and resumption: the honest runs meet the hypotheses (RSA and ECDHE suites, TLS 1.0-1.2; a second
    connection resuming the first one's session) *)
 Definition ex_rsa := TCert 4 KIND_RSA 3 104.
-Definition ex_tls_client (maxv : N) (suites : list N) : cconfig := mkCC false maxv suites true [4] None false None 11 12 13 14.
+Definition ex_tls_client (maxv : N) (suites : list N) : cconfig := mkCC false maxv suites true [ex_rsa] None false None 11 12 13 14.
 Definition ex_tls_server : sconfig := mkSC TLSOnly None false 0 [] [] (Some (ex_rsa, 104)) true 200 false 21 22 23.
 Example C08_tls_honest_runs :
   forallb (fun cfg => match pair_run cfg ex_tls_server with ((_, PDone), (_, PDone)) => true | _ => false end)
@@ -279,16 +315,115 @@ Example C08_tls_honest_runs :
 Proof. vm_compute. reflexivity. Qed.
 
 Definition ex_resuming_pair : pstat * pstat * bool :=
-  let srv := mkSC GMOnly None false 0 [3] [(ex_sig, 101); (ex_enc, 102)] None true 200 false 21 22 23 in
-  let cl := mkCC true 771 [57363] true [1; 2] None true None 11 12 13 14 in
+  let srv := mkSC GMOnly None false 0 [ex_auth] [(ex_sig, 101); (ex_enc, 102)] None true 200 false 21 22 23 in
+  let cl := mkCC true 771 [57363] true [ex_sig; ex_enc] None true None 11 12 13 14 in
   match pair_run cl srv with
   | ((c, PDone), (s, PDone)) =>
       let ticket := encryptTicket 200 (session_state (ss_vers s) (ss_suite s) (ss_master s) (ss_peer s)) in
-      let cl2 := mkCC true 771 [57363] true [1; 2] None true (Some (ticket, ss_suite s, cs_master c)) 41 42 43 44 in
-      match pair_run cl2 (mkSC GMOnly None false 0 [3] [(ex_sig, 101); (ex_enc, 102)] None true 200 false 51 52 53) with
+      let cl2 := mkCC true 771 [57363] true [ex_sig; ex_enc] None true (Some (ticket, ss_suite s, cs_master c)) 41 42 43 44 in
+      match pair_run cl2 (mkSC GMOnly None false 0 [ex_auth] [(ex_sig, 101); (ex_enc, 102)] None true 200 false 51 52 53) with
       | ((c2, a), (s2, b)) => (a, b, cs_resumed c2 && ss_resumed s2 && term_eqb (cs_master c2) (cs_master c))
       end
   | _ => (PFailed, PFailed, false)
   end.
 Example C08_resumption_runs : ex_resuming_pair = (PDone, PDone, true).
 Proof. vm_compute. reflexivity. Qed.
+
+(* the hypotheses of 8 are met: a reachable state (attacker holding key 999) in which a protected client has completed *)
+Definition xAK (k : N) : bool := k =? 999.
+Definition xown (i : N) : bool := 900 <=? i.
+Definition x_sig := TCert 1 KIND_SM2 KU_SIGN 101.
+Definition x_enc := TCert 2 KIND_SM2 KU_ENC 102.
+Definition x_client : cconfig := mkCC true 771 [57363] true [x_sig; x_enc] None false None 11 12 13 14.
+Definition x_server : sconfig := mkSC GMOnly None false 0 [] [(x_sig, 101); (x_enc, 102)] None false 200 false 21 22 23.
+
+(* the messages of the honest run, computed from the two models *)
+Definition x_c0 := client_init x_client.
+Definition x_s1 := fst (feed (server_step x_server) server_init PRunning (map to_input (cs_out x_c0))).
+Definition x_c1 := fst (feed (client_step x_client) (cs_clear_out x_c0) PRunning (map to_input (ss_out x_s1))).
+Definition x_s2 := fst (feed (server_step x_server) (ss_clear_out x_s1) PRunning (map to_input (cs_out x_c1))).
+Definition x_f0 := Eval vm_compute in map to_input (cs_out x_c0).
+Definition x_f1 := Eval vm_compute in map to_input (ss_out x_s1).
+Definition x_f2 := Eval vm_compute in map to_input (cs_out x_c1).
+Definition x_f3 := Eval vm_compute in map to_input (ss_out x_s2).
+Definition xi (l : list input) (k : nat) : input := nth k l IEOF.
+
+Ltac in_wire := vm_compute; repeat (first [left; reflexivity | right]).
+Ltac deliv := first [apply ccs_deliverable | apply wire_message_deliverable; in_wire].
+
+Ltac norm R :=
+  match type of R with
+  | reach ?a ?o ?s => let s' := eval vm_compute in s in
+                      let H := fresh in assert (H : reach a o s') by (vm_cast_no_check R); clear R; rename H into R
+  end.
+Ltac to_server R k inp :=
+  match type of R with
+  | reach _ _ ?s =>
+    let p := eval vm_compute in (nth_error (parties s) k) in
+    match p with
+    | Some (PServer ?cfg ?ins) =>
+      let rr := eval vm_compute in (server_run cfg ins) in
+      match rr with
+      | RWaiting ?st =>
+        let i' := eval vm_compute in inp in
+        let sr := eval vm_compute in (server_step cfg st i') in
+        match sr with
+        | (?st', ?r) =>
+          let H := fresh in
+          assert (H : reach xAK xown (mkSys (replace_nth (parties s) k (PServer cfg (ins ++ [i']))) (wire s ++ new_out (ss_out st) (ss_out st'))))
+            by (eapply R_step; [exact R|]; apply (SS_deliver_server xAK xown s k cfg ins st i' st' r);
+                [vm_compute; reflexivity|vm_compute; reflexivity|deliv|vm_compute; reflexivity]);
+          clear R; rename H into R; norm R
+        end
+      end
+    end
+  end.
+Ltac to_client R k inp :=
+  match type of R with
+  | reach _ _ ?s =>
+    let p := eval vm_compute in (nth_error (parties s) k) in
+    match p with
+    | Some (PClient ?cfg ?ins) =>
+      let rr := eval vm_compute in (client_run cfg ins) in
+      match rr with
+      | RWaiting ?st =>
+        let i' := eval vm_compute in inp in
+        let sr := eval vm_compute in (client_step cfg st i') in
+        match sr with
+        | (?st', ?r) =>
+          let H := fresh in
+          assert (H : reach xAK xown (mkSys (replace_nth (parties s) k (PClient cfg (ins ++ [i']))) (wire s ++ new_out (cs_out st) (cs_out st'))))
+            by (eapply R_step; [exact R|]; apply (SS_deliver_client xAK xown s k cfg ins st i' st' r);
+                [vm_compute; reflexivity|vm_compute; reflexivity|deliv|vm_compute; reflexivity]);
+          clear R; rename H into R; norm R
+        end
+      end
+    end
+  end.
+
+Example sessions_example :
+  exists s ins st, reach xAK xown s /\ In (PClient x_client ins) (parties s) /\ client_run x_client ins = RComplete st /\
+                   protected xAK x_client /\ ecc_only x_client.
+Proof.
+  assert (R : reach xAK xown (mkSys [] [])) by constructor.
+  eassert (R1 : reach xAK xown _).
+  { eapply R_step; [exact R|]. apply (SS_spawn_client xAK xown _ x_client); [reflexivity|reflexivity|exact I|reflexivity]. }
+  clear R. norm R1.
+  eassert (R : reach xAK xown _).
+  { eapply R_step; [exact R1|]. apply (SS_spawn_server xAK xown _ x_server); [reflexivity|].
+    split; [repeat constructor|exact I]. }
+  clear R1. norm R.
+  (* ClientHello -> server; ServerHello, Certificate, ServerKeyExchange, ServerHelloDone -> client *)
+  to_server R 1%nat (xi x_f0 0).
+  to_client R 0%nat (xi x_f1 0). to_client R 0%nat (xi x_f1 1). to_client R 0%nat (xi x_f1 2). to_client R 0%nat (xi x_f1 3).
+  (* ClientKeyExchange, ChangeCipherSpec, Finished -> server; ChangeCipherSpec, Finished -> client *)
+  to_server R 1%nat (xi x_f2 0). to_server R 1%nat (xi x_f2 1). to_server R 1%nat (xi x_f2 2).
+  to_client R 0%nat (xi x_f3 0). to_client R 0%nat (xi x_f3 1).
+  eexists. eexists. eexists. split; [exact R|]. split; [cbn; left; reflexivity|]. split; [vm_compute; reflexivity|].
+  split.
+  - split; [reflexivity|]. split; [reflexivity|]. intros c Hc Hm.
+    cbn [c_trusted x_client tmem existsb] in Hm. apply orb_prop in Hm. destruct Hm as [Hm|Hm].
+    + apply term_eqb_eq in Hm. subst c. reflexivity.
+    + apply orb_prop in Hm. destruct Hm as [Hm|Hm]; [|discriminate]. apply term_eqb_eq in Hm. subst c. reflexivity.
+  - intros id [<-|[]]. left. reflexivity.
+Qed.
